@@ -117,7 +117,31 @@ struct Functor {
 static void scenario_thread(int tkind, int bkind, int arg, int members)
 {
 	Board b;
-	switch (tkind % 7) {
+	switch (tkind % 9) {
+	case 7: { // the same subclassed Thread object started and joined again: every round runs the body once more
+		SubThread t(&b, 0, bkind, arg);
+		int rounds = 2 + (members % 2 + 2) % 2;
+		for (int r = 0; r < rounds; r++) {
+			t.start();
+			t.join();
+			VF_CHECK(b.ran[0] == r + 1, "subclassed Thread, round ", r + 1, " of start()/join() on the same object: the body has run ", b.ran[0].load(), " times when join() returned (want ", r + 1, ")");
+			VF_CHECK(t.finished(), "subclassed Thread: finished() is false after join() in round ", r + 1);
+		}
+		break;
+	}
+	case 8: { // the same ThreadGroup started and joined again
+		int n = 1 + (members % 6 + 6) % 6;
+		ThreadGroup<SubThread> g;
+		for (int i = 0; i < n; i++)
+			g << SubThread(&b, i, bkind + i, arg + i * 37);
+		for (int r = 0; r < 2; r++) {
+			g.start();
+			g.join();
+			for (int i = 0; i < n; i++)
+				VF_CHECK(b.ran[i] == r + 1, "ThreadGroup of ", n, ", round ", r + 1, " of start()/join(): member ", i, " has run ", b.ran[i].load(), " times when join() returned (want ", r + 1, ")");
+		}
+		break;
+	}
 	case 0: {
 		SubThread t(&b, 0, bkind, arg);
 		t.start();
@@ -383,7 +407,7 @@ static DfsInfo g_dfs;
 static void run_under_scheduler(const vf::Op& o)
 {
 	// hand kind a b c cap: small scenario explored over every interleaving at the hand-over points
-	int kind = (int)(o.i(0) % 5 + 5) % 5;
+	int kind = (int)(o.i(0) % 7 + 7) % 7;
 	long cap = o.i(4) > 0 ? o.i(4) : 200000;
 	static bool pinned = false;
 	if (!pinned) {
@@ -412,6 +436,12 @@ static void run_under_scheduler(const vf::Op& o)
 				break;
 			case 4:
 				scenario_thread(3, (int)o.i(1), 0, (int)(o.i(2) % 2)); // ThreadGroup of 1-2
+				break;
+			case 5:
+				scenario_thread(7, (int)o.i(1), 0, 0); // subclassed thread started and joined twice
+				break;
+			case 6:
+				scenario_thread(8, (int)o.i(1), 0, (int)(o.i(2) % 2)); // ThreadGroup of 1-2 started and joined twice
 				break;
 			}
 		}
@@ -529,7 +559,7 @@ void vf_search(const vf::Args& a)
 	}();
 	// (3) generated thread scenarios under jitter
 	[&]() {
-		auto g = gen::map(gen::tuple(vf::irange<int>(0, 6), gen::weightedElement<int>({{4, 0}, {2, 1}, {2, 2}, {1, 3}}), vf::irange<int>(0, 20000), vf::irange<int>(0, 7), vf::irange<int>(1, 1000000)),
+		auto g = gen::map(gen::tuple(vf::irange<int>(0, 8), gen::weightedElement<int>({{4, 0}, {2, 1}, {2, 2}, {1, 3}}), vf::irange<int>(0, 20000), vf::irange<int>(0, 7), vf::irange<int>(1, 1000000)),
 		                  [=](const std::tuple<int, int, int, int, int>& t) {
 			                  vf::Case c;
 			                  int reps = std::get<1>(t) == 3 ? 3 : (a.quick() ? 20 : 100);
@@ -538,12 +568,12 @@ void vf_search(const vf::Args& a)
 		                  });
 		vf::check_cases("thread", a.n(150, 1200), 100, g, [](const vf::Case& c) {
 			auto& o = c.ops[0];
-			bool nontrivial = o.i(1) % 4 == 0 || (o.i(1) % 4 == 2 && o.i(2) < 200) || o.i(0) == 1 || o.i(0) == 2 || o.i(0) >= 4;
+			bool nontrivial = o.i(1) % 4 == 0 || (o.i(1) % 4 == 2 && o.i(2) < 200) || o.i(0) == 1 || o.i(0) == 2 || o.i(0) >= 4; // (kinds 7, 8: restarted thread / group)
 			if (nontrivial)
 				vf::stats().nt(vf::fnv(vf::serialize(c)));
-			static const char* tk[] = {"subclass", "lambda", "functor", "group", "invoke2", "invoke3", "invoke4"};
+			static const char* tk[] = {"subclass", "lambda", "functor", "group", "invoke2", "invoke3", "invoke4", "subclass_restarted", "group_restarted"};
 			static const char* bk[] = {"empty", "stores", "spin", "sleep"};
-			vf::stats().cls(vf::str("thread.", tk[o.i(0) % 7]));
+			vf::stats().cls(vf::str("thread.", tk[o.i(0) % 9]));
 			vf::stats().cls(vf::str("body.", bk[o.i(1) % 4]));
 			vf::stats().cls("thread.jittered_repetitions", o.i(4));
 			if (o.i(0) == 1 && o.i(1) == 0)
@@ -559,6 +589,10 @@ void vf_search(const vf::Args& a)
 			cfgs.push_back(vf::Op("hand", {2, b, 0, 0, 200000})); // parallel_invoke(2)
 			cfgs.push_back(vf::Op("hand", {4, b, 0, 0, 200000})); // ThreadGroup(1)
 			cfgs.push_back(vf::Op("hand", {4, b, 1, 0, 200000})); // ThreadGroup(2)
+			cfgs.push_back(vf::Op("hand", {5, b, 0, 0, 200000})); // subclassed thread, two rounds
+			cfgs.push_back(vf::Op("hand", {6, b, 0, 0, 200000})); // ThreadGroup(1), two rounds
+			if (!a.quick())
+				cfgs.push_back(vf::Op("hand", {6, b, 1, 0, 200000})); // ThreadGroup(2), two rounds (43264 interleavings)
 		}
 		for (int r = 0; r < 3; r++)
 			for (int len = 0; len < 3; len++)
